@@ -395,10 +395,24 @@ def run(tier: str) -> int:
     stats = {"pipelines": 0, "measurements": 0, "modes": {}, "runs": 0}
     mism, samples_out = [], []
     tried = 0
-    while stats["pipelines"] < n_pipes and tried < 200:
+    # one pipeline made of derived (generated-per-construction) processors: a swept source, a swept operation, a swept probe and a slicer
+    swept = [{"processor": "TSource", "derive": {"parameter_sweep": {"parameters": {"v": "(t,)"}, "variables": {"t": [1, 2]}, "collection": "TColl"}}},
+             {"processor": "TMerge"},
+             {"processor": "TOp1", "derive": {"parameter_sweep": {"parameters": {"a": "(s, u)"}, "variables": {"s": [3], "u": {"from_context": "us"}},
+                                                                  "collection": "TColl", "mode": "by_position", "broadcast": True}}},
+             {"processor": "slice:TOp0:TColl"},
+             {"processor": "TMerge"},
+             {"processor": "TProbeP", "derive": {"parameter_sweep": {"parameters": {"a": "(w,)"}, "variables": {"w": {"lo": 0.0, "hi": 1.0, "steps": 2}}}},
+              "context_key": "probed"}]
+    queue_of_cases = [(swept, {"us": [7, 8]})]
+    while stats["pipelines"] < n_pipes + 1 and tried < 200:
         tried += 1
-        nodes, ctx0, _ = pipegen.gen_pipeline(rnd, max_len=5, p_misfit=0.0)
-        ctx0 = {k: v for k, v in ctx0.items() if isinstance(v, (str, int)) and v != ""}
+        if queue_of_cases:
+            nodes, ctx0 = queue_of_cases.pop()
+            stats["swept_pipeline"] = pipegen.run_real(nodes, ctx0)["outcome"]
+        else:
+            nodes, ctx0, _ = pipegen.gen_pipeline(rnd, max_len=5, p_misfit=0.0)
+            ctx0 = {k: v for k, v in ctx0.items() if isinstance(v, (str, int)) and v != ""}
         if pipegen.run_real(nodes, ctx0)["outcome"] != "ok":
             continue
         if any(n["processor"] in ("TSink", "TPayloadSink") and "path" not in (n.get("parameters") or {}) for n in nodes):
